@@ -448,6 +448,27 @@ func strokeFamily(name string, shapes []shape, caps []capper, joins []joiner) fw
 	}
 }
 
+// fastStrokeFamily: the same check with the package switch FastStroke on (the result is not settled;
+// its doc comment promises the same region under the non-zero rule for the trivial cases, which is how
+// the probes are judged).
+func fastStrokeFamily(name string, shapes []shape, caps []capper, joins []joiner, ws []float64) fw.Family {
+	dec := func(i int64) strokeCase {
+		g := oracle.Digits(i, len(shapes), len(ws), len(caps), len(joins), len(tols))
+		c := strokeCase{shapes[g[0]], ws[g[1]], caps[g[2]], joins[g[3]], tols[g[4]]}
+		return c
+	}
+	return fw.Family{
+		Name: name,
+		N:    oracle.Prod(len(shapes), len(ws), len(caps), len(joins), len(tols)),
+		Check: func(i int64, r *fw.R) {
+			canvas.FastStroke = true
+			defer func() { canvas.FastStroke = false }()
+			checkStroke(dec(i), r)
+		},
+		Desc: func(i int64) string { return "FastStroke=true; " + dec(i).String() },
+	}
+}
+
 // ---------------------------------------------------------------------------------------------
 // Offset
 
@@ -598,6 +619,10 @@ func families(tier string) []fw.Family {
 		strokeFamily("curved menu, tight join limits", curved, cappers[:1], tightJoiners),
 		offsetFamily("Offset: simple triangles (L4) and curved closed contours", append(simpleOnly(closedShapes(4, 3)), closedCurved...)),
 	}
+	fs = append(fs,
+		fastStrokeFamily("FastStroke: simple closed triangles (L4), both orientations, square capper", simpleOnly(closedShapes(4, 3)), square, joiners, widths),
+		fastStrokeFamily("FastStroke: open 2-segment polylines (L4 mod translation)", openShapes(4, 2), cappers, joiners, widths),
+	)
 	if tier == "thorough" {
 		fs = append(fs,
 			strokeFamily("closed quadrilaterals (L4 mod rotation, translation), square capper", closedShapes(4, 4), square, joiners),
